@@ -269,6 +269,37 @@ def as_fractions(pairs):
     return {k: Fraction(v).limit_denominator(1000) for k, v in pairs}
 
 
+def canonical(pairs):
+    """every exponent is held exactly as the library holds the printed value: an int, or the float of the fraction
+    (exponents that carry rounding noise from earlier arithmetic are outside the exact-use check)"""
+    for _, v in pairs:
+        fr = Fraction(v).limit_denominator(1000)
+        if isinstance(v, bool) or not isinstance(v, (int, float)) or (float(fr) != v and fr != v):
+            return False
+    return True
+
+
+def use_check(a, b, printed, what):
+    """the copy (b, whose unit was assigned from the printed unit of a) must be usable as the SAME unit: source +/- copy
+    give no unit-mismatch warning and keep the unit, source / copy is unit-less"""
+    import warnings
+    with warnings.catch_warnings(record=True) as caught:
+        warnings.simplefilter("always")
+        total, diff = a + b, a - b
+        quotient = a / b
+    mismatch = [str(w.message) for w in caught if "mismatching units" in str(w.message)]
+    for name, r in (("sum", total), ("difference", diff)):
+        if mismatch or r.unit != printed:
+            return "{}: the {} of the quantity and a second one that was assigned its printed unit {!r} has unit {!r}{} -- the " \
+                   "unit read back is not treated as the same unit (exponents held: {} vs {})".format(
+                       what, name, printed, r.unit, " with the warning '{}'".format(mismatch[0][:60]) if mismatch else "",
+                       [repr(v) for v in a._unit.values()], [repr(v) for v in b._unit.values()])
+    if quotient.unit != "":
+        return "{}: the quotient of the quantity and a second one that was assigned its printed unit {!r} has unit {!r}".format(
+            what, printed, quotient.unit)
+    return None
+
+
 def judge_map(pairs):
     """the property on one exponent map (given as it would be held by the library): None or what fails"""
     import qexpy as q
@@ -296,6 +327,10 @@ def judge_map(pairs):
                     st.lower(), U._show(want), printed, "nothing (not a sentence)" if ref is None else U._show(U.nonzero(ref)))
             if printed != s:
                 return "style {}: a.unit is {!r} but construct_unit_string gives {!r}".format(st.lower(), printed, s)
+            if canonical(pairs):
+                why = use_check(a, b, printed, "style {}: the unit {}".format(st.lower(), U._show(want)))
+                if why:
+                    return why
         finally:
             q.set_unit_style(q.UnitStyle.EXPONENTS)
     return None
@@ -344,6 +379,11 @@ def judge_api(pairs, how):
             if got != want:
                 return "style {}: the unit of {}(x), x in {!r}, prints as {!r} and parses back to {} instead of {}".format(
                     st.lower(), how, us, printed, U._show(got), U._show(want))
+            if canonical(list(y._unit.items())):
+                b.value = 3.0
+                why = use_check(y, b, printed, "style {}: the unit of {}(x), x in {!r},".format(st.lower(), how, us))
+                if why:
+                    return why
             if how == "same":
                 for edit in (["append"], ["insert", 1], ["setitem", 0]):
                     before, after = run_edit(st, us, edit)
